@@ -171,7 +171,7 @@ def read_item(src, tolerance=0):
     while src.hasNext():
         if src.peek().category == TC.Escape:
             cmd_name, _ = make_read_peek(read_command)(
-                src, 1, skip=1, tolerance=tolerance)
+                src, 0, 0, skip=1, tolerance=tolerance)
             if cmd_name in ('end', 'item'):
                 return extras
         elif src.peek().category == TC.GroupEnd:
